@@ -422,7 +422,10 @@ func checkC09(P *Program, r *Result, tier string) {
 		r.Fatal = append(r.Fatal, tmp.Fatal...)
 		n := 0
 		for _, o := range tmp.Obls {
-			if strings.HasSuffix(o.Rule, "/GROW") || strings.HasSuffix(o.Rule, "/STITCH") {
+			// ... and once flushed, the writer forgets the buffer: what the bytes-backed sink handed to the caller is the
+			// caller's from then on (ONCE: buf = pendingBuf = nil after a successful flush; PUBLISH)
+			forget := (strings.HasSuffix(o.Rule, "/ONCE") && strings.HasPrefix(o.Construct, "return")) || strings.HasSuffix(o.Rule, "/PUBLISH")
+			if strings.HasSuffix(o.Rule, "/GROW") || strings.HasSuffix(o.Rule, "/STITCH") || forget {
 				o.Rule = r.Prop + "/REGIONS"
 				r.Obls = append(r.Obls, o)
 				r.Funcs[o.Func] = true
